@@ -169,6 +169,7 @@ def run(tier, seed):
     ri = restart_items(tier)
     col.merge(stepcheck.explore(ri, MONS, 0, 0, seed=seed))
     col.merge(stepcheck.explore(F.scale_items(("TSLACK",)), MONS, 0, 0, seed=seed))  # medium-sized models (10-14 tasks / workers / machines), long absence lists
+    col.merge(stepcheck.explore(F.extra_items(("TSLACK",), calendars=False), MONS, 0, 0, seed=seed))  # other ways of building the object graph; continuations under a revised calendar
     meta = {
         "level": "model_checking",
         "rule": "the FAC family (flat / shared / parent-child / extra components x 1-2 workplaces with capacities 1/2, conveyor link, facility layouts) plus 2-3 components of space 0.5/1 competing "
